@@ -337,6 +337,47 @@ Definition run_cmd (st : store) (c : cmd) : store * res * list str := run_line s
 Definition init_store : store :=
   MkStore (map new_box [INBOX; S_ "Sent"; S_ "Drafts"; S_ "Trash"; S_ "Spam"]) [] 0.
 
+(** ---- the environment: store opens, restarts, deliveries ----
+    db.createDefaultMailboxes runs whenever a process opens a store for the first time
+    (DBManager.initUserDB: IMAP login after a restart; the delivery service's own manager on
+    its first delivery to the user): the five defaults are inserted only while the mailboxes
+    table is EMPTY, otherwise nothing happens. *)
+Definition open_store (st : store) : store :=
+  if is_nil (boxes st)
+  then MkStore (map new_box [INBOX; S_ "Sent"; S_ "Drafts"; S_ "Trash"; S_ "Spam"]) (subs st) (next_msg st)
+  else st.
+
+(** storage.DeliverMessage for one recipient (default folder INBOX): the store is opened, the
+    target folder is "Spam" for a message the spam headers mark, else INBOX; it is looked up by
+    its exact name and CREATED if missing (the only name a delivery may create); the message
+    row is stored, then linked with the next uid *)
+Definition deliver (st : store) (spam : bool) : store * res :=
+  let st := open_store st in
+  let target := if spam then S_ "Spam" else INBOX in
+  let bs := if exists_box (boxes st) target then boxes st else boxes st ++ [new_box target] in
+  match find (fun b => str_eqb (mb_name b) target) bs with
+  | None => (st, RNo)
+  | Some b =>
+      let tok := next_msg st in
+      let '(b', ok) := add_link b tok in
+      (MkStore (map (fun x => if str_eqb (mb_name x) target then b' else x) bs) (subs st) (tok + 1),
+       if ok then ROk else RNo)
+  end.
+
+(** one step of a history: a command line, a restart of the IMAP side followed by a login
+    (the user's store is opened again), a delivery through the delivery side's manager *)
+Inductive estep := ECmd (c : cmd) | ERestart | EDeliver (spam : bool).
+
+Definition run_step (st : store) (e : estep) : store * res * list str :=
+  match e with
+  | ECmd c => run_cmd st c
+  | ERestart => (open_store st, ROk, [])
+  | EDeliver spam => plain (deliver st spam)
+  end.
+
+Definition run_env (st : store) (h : list estep) : store :=
+  fold_left (fun st e => fst (fst (run_step st e))) h st.
+
 Fixpoint run_trace (st : store) (h : list cmd) : list (store * res * list str) :=
   match h with
   | [] => []
